@@ -331,10 +331,131 @@ func (sc *c05Scenario) instantiate() *c05Target {
 
 var hostileU64 = []uint64{0, 1, 2, 3, 64, 65, 66, 255, 1 << 31, 1<<31 - 1, 1 << 32, 1<<32 + 2, 1<<63 - 1, 1 << 63, math.MaxUint64 - 1, math.MaxUint64}
 
+// genHostileU64 draws from the boundary classes of the integer conversions Go code performs on wire
+// integers (int, int32, int64, slice lengths), each class equally likely.
+func genHostileU64(rt *rapid.T, l string) uint64 {
+	switch rapid.IntRange(0, 5).Draw(rt, l+"u64class") {
+	case 0:
+		return uint64(rapid.IntRange(0, 8).Draw(rt, l+"small"))
+	case 1:
+		return rapid.SampledFrom([]uint64{1<<31 - 1, 1 << 31, 1<<31 + 1, 1<<32 - 1, 1 << 32, 1<<32 + 2}).Draw(rt, l+"w32")
+	case 2:
+		return rapid.SampledFrom([]uint64{1<<63 - 1, 1 << 63, 1<<63 + 1, 1<<63 + 2}).Draw(rt, l+"w63")
+	case 3:
+		return rapid.SampledFrom([]uint64{math.MaxUint64, math.MaxUint64 - 1, math.MaxUint64 - 2}).Draw(rt, l+"max")
+	default:
+		return rapid.SampledFrom(hostileU64).Draw(rt, l+"u64")
+	}
+}
+
+// leafSite is one populated scalar of a message tree: a singular field or one list element.
+type leafSite struct {
+	m    protoreflect.Message
+	fd   protoreflect.FieldDescriptor
+	idx  int // -1: singular
+	path string
+}
+
+func collectLeafSites(m protoreflect.Message, prefix string, depth int, out *[]leafSite) {
+	var fds []protoreflect.FieldDescriptor
+	m.Range(func(f protoreflect.FieldDescriptor, _ protoreflect.Value) bool { fds = append(fds, f); return true })
+	sort.Slice(fds, func(i, j int) bool { return fds[i].Number() < fds[j].Number() })
+	for _, f := range fds {
+		name := prefix + string(f.Name())
+		switch {
+		case f.IsMap():
+		case f.IsList():
+			lst := m.Get(f).List()
+			for i := 0; i < lst.Len(); i++ {
+				if f.Kind() == protoreflect.MessageKind {
+					if depth < 4 {
+						collectLeafSites(lst.Get(i).Message(), fmt.Sprintf("%s[%d].", name, i), depth+1, out)
+					}
+				} else {
+					*out = append(*out, leafSite{m, f, i, fmt.Sprintf("%s[%d]", name, i)})
+				}
+			}
+		case f.Kind() == protoreflect.MessageKind:
+			if depth < 4 {
+				collectLeafSites(m.Get(f).Message(), name+".", depth+1, out)
+			}
+		default:
+			*out = append(*out, leafSite{m, f, -1, name})
+		}
+	}
+}
+
+
+func mutateScalar(rt *rapid.T, l string, fd protoreflect.FieldDescriptor, cur protoreflect.Value) protoreflect.Value {
+	switch fd.Kind() {
+	case protoreflect.Uint64Kind:
+		return protoreflect.ValueOfUint64(genHostileU64(rt, l))
+	case protoreflect.Int64Kind:
+		return protoreflect.ValueOfInt64(int64(genHostileU64(rt, l+"i")))
+	case protoreflect.BytesKind:
+		b := append([]byte{}, cur.Bytes()...)
+		switch rapid.IntRange(0, 5).Draw(rt, l+"bk") {
+		case 0:
+			b = nil
+		case 1:
+			if len(b) > 0 {
+				b = b[:rapid.IntRange(0, len(b)-1).Draw(rt, l+"cut")]
+			}
+		case 2:
+			b = append(b, rapid.SliceOfN(rapid.Byte(), 1, 3).Draw(rt, l+"ext")...)
+		case 3:
+			if len(b) > 0 {
+				b[rapid.IntRange(0, len(b)-1).Draw(rt, l+"flip")] ^= 0xff
+			}
+		case 4:
+			b = rapid.SliceOfN(rapid.Byte(), 0, 100).Draw(rt, l+"rnd")
+		case 5:
+			b = make([]byte, rapid.SampledFrom([]int{1, 31, 32, 33, 47, 48, 49, 52, 64, 65, 66, 96}).Draw(rt, l+"len"))
+		}
+		return protoreflect.ValueOfBytes(b)
+	case protoreflect.StringKind:
+		s := cur.String()
+		switch rapid.IntRange(0, 4).Draw(rt, l+"sk") {
+		case 0:
+			s = ""
+		case 1:
+			if r := []rune(s); len(r) > 0 {
+				s = string(r[:rapid.IntRange(0, len(r)-1).Draw(rt, l+"scut")])
+			}
+		case 2:
+			s += "zz"
+		case 3:
+			s = "0x" + strings.Repeat("ab", rapid.SampledFrom([]int{0, 1, 20, 32, 63, 64, 65, 66}).Draw(rt, l+"hexlen"))
+		case 4:
+			s = rapid.StringN(0, 20, 40).Draw(rt, l+"srnd")
+		}
+		return protoreflect.ValueOfString(s)
+	case protoreflect.BoolKind:
+		return protoreflect.ValueOfBool(!cur.Bool())
+	}
+	return cur
+}
+
 func mutateProto(rt *rapid.T, l string, m protoreflect.Message, depth int) string {
 	fields := m.Descriptor().Fields()
 	if fields.Len() == 0 {
 		return "none"
+	}
+	if depth == 0 && rapid.IntRange(0, 9).Draw(rt, l+"leafmode") < 4 {
+		// every populated scalar of the tree is equally likely, however deep it sits: the top-down walk
+		// below reaches an element of a list in a nested message only rarely
+		var sites []leafSite
+		collectLeafSites(m, "", 0, &sites)
+		if len(sites) > 0 {
+			st := sites[rapid.IntRange(0, len(sites)-1).Draw(rt, l+"site")]
+			if st.idx < 0 {
+				st.m.Set(st.fd, mutateScalar(rt, l+"leaf", st.fd, st.m.Get(st.fd)))
+			} else {
+				lst := st.m.Mutable(st.fd).List()
+				lst.Set(st.idx, mutateScalar(rt, l+"leaf", st.fd, lst.Get(st.idx)))
+			}
+			return "leaf:" + st.path
+		}
 	}
 	fd := fields.Get(rapid.IntRange(0, fields.Len()-1).Draw(rt, l+"field"))
 	// prefer populated fields (that is where the handlers look), and among them lists and sub-messages
@@ -355,55 +476,7 @@ func mutateProto(rt *rapid.T, l string, m protoreflect.Message, depth int) strin
 		fd = populated[rapid.IntRange(0, len(populated)-1).Draw(rt, l+"pfield")]
 	}
 	name := string(fd.Name())
-	mutScalar := func(cur protoreflect.Value) protoreflect.Value {
-		switch fd.Kind() {
-		case protoreflect.Uint64Kind:
-			return protoreflect.ValueOfUint64(rapid.SampledFrom(hostileU64).Draw(rt, l+"u64"))
-		case protoreflect.Int64Kind:
-			return protoreflect.ValueOfInt64(int64(rapid.SampledFrom(hostileU64).Draw(rt, l+"i64")))
-		case protoreflect.BytesKind:
-			b := append([]byte{}, cur.Bytes()...)
-			switch rapid.IntRange(0, 5).Draw(rt, l+"bk") {
-			case 0:
-				b = nil
-			case 1:
-				if len(b) > 0 {
-					b = b[:rapid.IntRange(0, len(b)-1).Draw(rt, l+"cut")]
-				}
-			case 2:
-				b = append(b, rapid.SliceOfN(rapid.Byte(), 1, 3).Draw(rt, l+"ext")...)
-			case 3:
-				if len(b) > 0 {
-					b[rapid.IntRange(0, len(b)-1).Draw(rt, l+"flip")] ^= 0xff
-				}
-			case 4:
-				b = rapid.SliceOfN(rapid.Byte(), 0, 100).Draw(rt, l+"rnd")
-			case 5:
-				b = make([]byte, rapid.SampledFrom([]int{1, 31, 32, 33, 47, 48, 49, 52, 64, 65, 66, 96}).Draw(rt, l+"len"))
-			}
-			return protoreflect.ValueOfBytes(b)
-		case protoreflect.StringKind:
-			s := cur.String()
-			switch rapid.IntRange(0, 4).Draw(rt, l+"sk") {
-			case 0:
-				s = ""
-			case 1:
-				if r := []rune(s); len(r) > 0 {
-					s = string(r[:rapid.IntRange(0, len(r)-1).Draw(rt, l+"scut")])
-				}
-			case 2:
-				s += "zz"
-			case 3:
-				s = "0x" + strings.Repeat("ab", rapid.SampledFrom([]int{0, 1, 20, 32, 63, 64, 65, 66}).Draw(rt, l+"hexlen"))
-			case 4:
-				s = rapid.StringN(0, 20, 40).Draw(rt, l+"srnd")
-			}
-			return protoreflect.ValueOfString(s)
-		case protoreflect.BoolKind:
-			return protoreflect.ValueOfBool(!cur.Bool())
-		}
-		return cur
-	}
+	mutScalar := func(cur protoreflect.Value) protoreflect.Value { return mutateScalar(rt, l, fd, cur) }
 	switch {
 	case fd.IsList():
 		lst := m.Mutable(fd).List()
